@@ -135,7 +135,7 @@ fn wellformed_k<K: Kind>(c: &FileCase, ctx: &mut Ctx) -> Result<(), Fail> {
             let p = scratch_shp("c02", shapes.len() + c.mid_fins as usize);
             {
                 let w = shapefile::ShapeWriter::from_path(&p).map_err(|e| Fail::new("write-error", err_str(&e)))?;
-                drive_writer(w, &shapes, c.fin, c.mid_fins).map_err(|e| Fail::new("write-error", e))?;
+                drive_writer_ff(w, &shapes, c.fin, c.mid_fins, c.rejects & 1 != 0).map_err(|e| Fail::new("write-error", e))?;
             }
             (std::fs::read(&p).map_err(|e| Fail::new("disk-io", e.to_string()))?, None)
         } else {
@@ -237,7 +237,7 @@ fn index_k<K: Kind>(c: &FileCase, ctx: &mut Ctx) -> Result<(), Fail> {
         let p = scratch_shp("c04", shapes.len() + c.mid_fins as usize);
         {
             let w = shapefile::ShapeWriter::from_path(&p).map_err(|e| Fail::new("write-error", err_str(&e)))?;
-            drive_writer(w, &shapes, c.fin, c.mid_fins).map_err(|e| Fail::new("write-error", e))?;
+            drive_writer_ff(w, &shapes, c.fin, c.mid_fins, c.rejects & 1 != 0).map_err(|e| Fail::new("write-error", e))?;
         }
         let a = std::fs::read(&p).map_err(|e| Fail::new("disk-io", e.to_string()))?;
         let b = std::fs::read(p.with_extension("shx")).map_err(|e| Fail::new("disk-io", e.to_string()))?;
